@@ -1,0 +1,55 @@
+//go:build verif
+
+package starlark
+
+// Verification hooks for property C16 (position table); compiled only with
+// -tags verif.  They re-export the hooks of internal/compile/verif_c16.go,
+// which an external module cannot import.
+
+import "go.starlark.net/internal/compile"
+
+// A VerifRow is one row (pc, line, col) of a position table.
+type VerifRow = compile.VerifRow
+
+// VerifEncodeLNT runs the real encoder (fcomp.generate) on the given rows.
+func VerifEncodeLNT(line, col int32, rows []VerifRow, blockPerRow bool) (tab []uint16, code []byte) {
+	return compile.VerifEncodeLNT(line, col, rows, blockPerRow)
+}
+
+// VerifDecodeLNT runs the real decoder (Funcode.decodeLNT) on the given table.
+func VerifDecodeLNT(line, col int32, tab []uint16) []VerifRow {
+	return compile.VerifDecodeLNT(line, col, tab)
+}
+
+// VerifPositions runs the real lookup (Funcode.Position) for each pc.
+func VerifPositions(line, col int32, tab []uint16, pcs []uint32) []VerifRow {
+	return compile.VerifPositions(line, col, tab, pcs)
+}
+
+// A VerifFuncLNT describes the position table of one compiled function.
+type VerifFuncLNT struct {
+	Name      string
+	Line, Col int32 // Funcode.Pos
+	CodeLen   int
+	Tab       []uint16
+	Rows      []VerifRow
+}
+
+// VerifProgramLNT returns the position tables of all functions of a program,
+// toplevel first.
+func VerifProgramLNT(p *Program) []VerifFuncLNT {
+	fns := append([]*compile.Funcode{p.compiled.Toplevel}, p.compiled.Functions...)
+	res := make([]VerifFuncLNT, len(fns))
+	for i, fn := range fns {
+		tab, rows := compile.VerifLNT(fn)
+		res[i] = VerifFuncLNT{Name: fn.Name, Line: fn.Pos.Line, Col: fn.Pos.Col, CodeLen: len(fn.Code), Tab: tab, Rows: rows}
+	}
+	return res
+}
+
+// VerifFuncPosition returns what a frame of fn would report at pc.
+func VerifFuncPosition(p *Program, fnIndex int, pc uint32) (line, col int32) {
+	fns := append([]*compile.Funcode{p.compiled.Toplevel}, p.compiled.Functions...)
+	pos := fns[fnIndex].Position(pc)
+	return pos.Line, pos.Col
+}
